@@ -118,7 +118,23 @@ def main():
             traceback.print_exc()
             return 2
 
-    # 4. correspondence + oracles
+    # 4. correspondence + oracles (under the hang watchdog: a call into the library that never returns is reported)
+    def on_hang(stack, info):
+        try:
+            ctx = jsonable(info() if callable(info) else info)
+        except Exception:  # noqa
+            ctx = repr(info)[:2000]
+        rp = write_replay(prop, {"property": prop, "kind": "hang", "seed": seed, "tier": tier,
+                                 "failures": [{"oracle": "hang", "detail": "a call into the library did not return within the watchdog limit "
+                                               "(the main thread's stack inside the library did not change): deadlock or livelock",
+                                               "stack_innermost_first": stack, "context": ctx}],
+                                 "broken": [list(b) for b in broken[:5]]})
+        print(f"VIOLATION property={prop} replay={rp}")
+        write_evidence(prop, tier, seed, {"obligations": max(len(ob["theorems"]), 1), "discharged": 0, "evaluations": 0,
+                                          "distinct_nontrivial": 0, "rule": "run aborted by the hang watchdog", "samples": [{"hang": stack[:6]}],
+                                          "checker_cmd": "coqc", "trusted_base": [], "explanation": "aborted: hang"},
+                       [], time.time() - t0, 1)
+    start_watchdog(on_hang, limit=float(os.environ.get("VERIF_HANG_LIMIT", "45")))
     try:
         runs = spec.run(prop, tier, seed)
     except Exception:  # noqa
